@@ -47,6 +47,7 @@ type epochInfo struct {
 
 type obligation struct {
 	quickOnly bool
+	retried   bool // solved a second time after the first attempt ran out of time
 	name   string
 	fn     string
 	kind   string
